@@ -847,7 +847,7 @@ last.  With this order the interpreted run is the one-piece effect the theorems 
 other order (test hoisted above the update, minimum computed after the test, …) this obligation stops checking. -/
 theorem add_deposit_statement_order :
     addDepositSteps =
-      ["getProposal", "statusCheck", "getParams", "defaultMin", "getRatio", "denomCheck", "ratioCheck", "sendCoins", "addTotal",
+      ["getProposal", "statusCheck", "depositorNotModule:gov", "getParams", "defaultMin", "getRatio", "denomCheck", "ratioCheck", "sendCoins", "addTotal",
        "setProposal", "msgMin", "flag", "activate", "getDeposit", "mergeDeposit", "hooks", "sdkCtx", "event", "setDeposit", "return"] ∧
     ∀ (s : State) (p : Proposal) (who : Addr) (amt : Nat), depositRun s p who amt = depositEffect s p who amt :=
   ⟨addDepositSteps_order, depositRun_eq⟩
@@ -1385,6 +1385,69 @@ theorem stored_tally_result_is_votes_times_stakes (ops : List Op) (dt : Nat) (st
   rw [hres, ← c .yes, ← c .abstain, ← c .no, ← c .veto]
   rfl
 
+/-! ## the gov module account as depositor (fix 45d0bc2) -/
+
+/-- a proposal message that deposits FROM the gov module account: `MsgDeposit{depositor: gov}` or `MsgSubmitProposal{proposer: gov}` -/
+def isGovFunded (m : Msg) : Bool := match m.act with | .govDeposit _ _ => true | .govSubmit _ _ => true | _ => false
+
+theorem execMsgs_none_of_fails : ∀ (ms : List Msg) (s : State), (∃ m ∈ ms, ∀ t, execMsg m t = none) → execMsgs ms s = none := by
+  intro ms
+  induction ms with
+  | nil => intro s ⟨m, hm, _⟩; cases hm
+  | cons a r ih =>
+    intro s ⟨m, hm, hf⟩
+    simp only [execMsgs]
+    cases ha : execMsg a s with
+    | none => rfl
+    | some s1 =>
+      rcases List.mem_cons.mp hm with e | e
+      · subst e; rw [hf s] at ha; cases ha
+      · exact ih s1 ⟨m, e, hf⟩
+
+/-- **the gov module account cannot be a depositor** — over the statement list of `AddDeposit` as written now: the guard that
+refuses the module account stands BEFORE the first write (`depositGuardsModule`, read off `addDepositSteps`), so in every state
+`AddDeposit` from the gov account fails, a `MsgSubmitProposal` of the gov account fails with it, and a passed proposal that
+carries such a message anywhere among its messages ends FAILED with nothing written.  This is what makes
+`module_balance_eq_open_deposits`, `each_deposit_settled_once`, `gov_endblock_total` and `no_halt` — which quantify over ALL
+operation lists, hence over proposals carrying these messages — true of such histories. -/
+theorem gov_account_cannot_deposit :
+    depositGuardsModule = true ∧
+    (∀ (s : State) (pid amt : Nat), addDepositGov s pid amt = none) ∧
+    (∀ (s : State) (initial : Nat) (exp : Bool), submitGov s initial exp = none) ∧
+    (∀ (msgs : List Msg) (s : State), (∃ m ∈ msgs, isGovFunded m = true) → runProposalMsgs msgs s = (s, false)) := by
+  have hg : depositGuardsModule = true := rfl
+  refine ⟨hg, fun s pid amt => by simp [addDepositGov, hg], fun s i e => by simp [submitGov, hg], ?_⟩
+  intro msgs s ⟨m, hm, hgf⟩
+  have hf : ∀ t, execMsg m t = none := by
+    intro t
+    unfold execMsg
+    split
+    · rfl
+    · cases ha : m.act with
+      | govDeposit pid amt => simp [addDepositGov, hg]
+      | govSubmit i e => simp [submitGov, hg]
+      | noop => simp [isGovFunded, ha] at hgf
+      | cas k o n => simp [isGovFunded, ha] at hgf
+      | credit a b c => simp [isGovFunded, ha] at hgf
+      | setCustom u c => simp [isGovFunded, ha] at hgf
+  have := execMsgs_none_of_fails msgs s ⟨m, hm, hf⟩
+  simp [runProposalMsgs, show execInCacheCtx = true from rfl, show execErrVisible = true from rfl, this]
+
+/-- a reachable state with an open proposal: account 0 deposited 500 of the 1000 needed -/
+def govDepOps : List Op := [.mint 0 2000, .submit 0 [⟨"/fx.erc20.v1.MsgToggleTokenConversion".toList, true, true, .noop, []⟩] 500 false]
+
+/-- **without the guard the property is false** (the defect repaired by 45d0bc2, as a theorem about the unguarded writes): in a
+reachable state, `AddDeposit` of 100 from the gov module account on the open proposal 1 succeeds, moves no coin and leaves a
+deposit record — the module account holds 500 against 600 of recorded deposits (`module_balance_eq_open_deposits` broken) —
+and when the deposit period ends the refund of the records fails for lack of funds: the inactive-queue step, and with it the
+whole end-blocker, returns an error (block processing halts) -/
+theorem without_the_guard_deposits_are_not_conserved :
+    ∃ s', addDepositGovUnguarded (run init govDepOps) 1 100 = some s' ∧
+      s'.gov = 500 ∧ sumAmt s'.deps = 600 ∧ isOpenId s'.props 1 = true ∧
+      (match dropInactive 1 { s' with time := 40 } with | .error _ => true | .ok _ => false) = true ∧
+      (match endBlock {} { s' with time := 100 } with | .error _ => true | .ok _ => false) = true := by
+  refine ⟨_, rfl, ?_, ?_, ?_, ?_, ?_⟩ <;> decide
+
 /-! ## non-vacuity -/
 
 -- the examples below evaluate whole histories by `decide`; the interpreted statement lists (string tags) need a deeper recursion
@@ -1551,5 +1614,23 @@ example : ((cancelRun (run init (demoOps.take 5)) 1 0).toOption.map (fun t => (t
 time 50 stores (100, 30, 70, 0) for proposal 1 — the whole tokens of the sums of the previous `example` -/
 example : (findProp (run init (demoOps.take 14 ++ [.endBlock 1 demoStk])).props 1).map (·.tallyRes) = some (100, 30, 70, 0) := by
   decide
+
+/-- the fixed code on such a history: proposal 1 (passed by all validators) carries `MsgDeposit{depositor: gov}` on the open
+proposal 2 — it ends FAILED, proposal 2 keeps total 500 = its one record, the module holds exactly 500, and the block that ends
+proposal 2's deposit period refunds it without error -/
+def govCarrierOps : List Op :=
+  [ .mint 0 5000,
+    .submit 0 [⟨"/cosmos.gov.v1.MsgDeposit".toList, true, true, .govDeposit 2 100, []⟩] 1000 false,
+    .vote 1 100 [(.yes, DEC)], .vote 1 101 [(.yes, DEC)], .vote 1 102 [(.yes, DEC)],
+    .endBlock 100 demoStk,
+    .submit 0 [toggle] 500 false,
+    .endBlock 10 demoStk,
+    .endBlock 100 demoStk,
+    .endBlock 1 demoStk ]
+example : (run init (govCarrierOps.take 8)).props.map (fun p => (p.id, p.status, p.total)) = [(1, .failed, 1000), (2, .deposit, 500)] ∧
+    (run init (govCarrierOps.take 8)).gov = 500 ∧ (run init (govCarrierOps.take 8)).deps = [⟨2, 0, 500⟩] ∧
+    (govCarrierOps.map (fun o => (step (run init (govCarrierOps.take 8)) o).2)).drop 8 = ["ok", "ok"] ∧
+    (run init govCarrierOps).gov = 0 ∧ (run init govCarrierOps).props.map (·.id) = [1] := by
+  refine ⟨by decide, by decide, by decide, by decide, by decide, by decide⟩
 
 end FxVerif.Props.C15
